@@ -278,6 +278,25 @@ def own_list_probe(rep, rng):
             return
 
 
+def many_clears_probe(rep):
+    """'indices never written stay unoccupied' is about the NUMBER of clears as well: several hundred clear() calls in a row (a long run of a
+    SlidingBoundariesArchive clears at every remap), looking at the store after each"""
+    from ribs.archives import ArrayStore
+    s = ArrayStore({"o": ((), np.float64)}, 6)
+    s.add([0, 2], {"o": [1000.0, 2000.0]}, {}, [])
+    rep.count("many_clears_probes")
+    for k in range(1, 601):
+        s.clear()
+        occ, _ = s.retrieve([0, 1, 2, 5])
+        if len(s) != 0 or bool(np.any(s.occupied)) or bool(np.any(occ)) or len(s.occupied_list) != 0:
+            rep.violation("ArrayStore: add([0, 2]) and then %d clear() calls: occupied = %s, retrieve([0, 1, 2, 5]) occupied = %s, len = %d" % (
+                k, s.occupied.tolist(), occ.tolist(), len(s)), {"kind": "property", "broken": "after clear() nothing is occupied", "clears": k}, True,
+                {"kind": "store-clear-recurs"})
+            return
+        if k == 300:
+            s.add([1], {"o": [5.0]}, {}, [])
+
+
 def index_container(idxs, salt):
     """the indices an add() names, in the container types a caller may use (int32 / int64 / unsigned arrays, python list, tuple)"""
     kind = salt % 6
@@ -610,6 +629,7 @@ def check(rep, tier, seed, driver):
     py2v_store.report(rep)
     py2v_storeops.report(rep)
     own_list_probe(rep, random.Random(seed + 3))
+    many_clears_probe(rep)
     rng = random.Random(seed)
     n = 1500 if tier == "quick" else 20000
     rep.rule = ("random ArrayStore histories (add with arbitrary/repeated/unsorted indices and transform chains, malformed adds, "
